@@ -834,7 +834,7 @@ class ListModel(StoreModel):
         return super().method_hook(ex, recv, name, args, node)
 
 
-def listings(prog):
+def listings(prog, width=2, levels=2):
     """L: list_objects_v2 on every directory tree of the bound: exactly the keys that have the prefix and lie after the marker, ascending"""
     m = ListModel(prog)
     ex = m.ex
@@ -851,12 +851,12 @@ def listings(prog):
         files = []
 
         def gen(dirp, depth, tag):
-            n = m.choose("n_entries:" + tag, 3)
+            n = m.choose("n_entries:" + tag, width + 1)
             es = []
             for i in range(n):
                 name = Term("n", tag + str(i))
                 path = PV(list(dirp.fields["comps"].elems) + [name])
-                is_dir = depth < 1 and ex.decide(ex.bool_of(Term("is_dir", tag + str(i))))
+                is_dir = depth < levels - 1 and ex.decide(ex.bool_of(Term("is_dir", tag + str(i))))
                 es.append(Struct("__Entry", {"path": path, "is_dir": is_dir}))
                 if is_dir:
                     gen(path, depth + 1, tag + str(i) + ".")
@@ -941,7 +941,7 @@ def listings(prog):
         kc = deref(deref(out.fields["key_count"]).payload[0])
         if kc != len(listed):
             findings.setdefault("listing:key-count", ("KeyCount %r for %d listed keys" % (kc, len(listed)), {}))
-    if n_checked == 0 or max_files < 3:
+    if n_checked == 0 or max_files < 3:       # (every configuration used reaches at least 3 files)
         raise Inconclusive("listing: vacuous exploration (%d paths, at most %d files)" % (n_checked, max_files))
     return findings, {"paths": len(paths), "checked": n_checked, "max_files": max_files, "queries": ex.queries}
 
